@@ -33,7 +33,9 @@ MC_QuotedIdents_S == {"select"}
 \* <U+00E9> e acute (2 bytes), <U+6771> <U+4EAC> CJK (3 bytes each), <U+1F600> an emoji (4 bytes)
 MC_UniStrs    == {"caf<U+00E9>", "<U+6771><U+4EAC> x", "a<U+1F600>b", "<U+00E9><U+6771><U+1F600>"}
 MC_UniStrs_S  == {"<U+00E9><U+6771><U+1F600>"}
-MC_UniIdents  == {"t<U+00E9>", "<U+6771>1", "q <U+1F600>", "databases", "Databases", "orders", "counts", "desc1", "keys"}     \* the last one is written in double quotes
+MC_UniIdents  == {"t<U+00E9>", "<U+6771>1", "q <U+1F600>", "databases", "Databases", "orders", "counts", "desc1", "keys",
+                   \* eight bytes that grow under upper-casing (U+0250 -> U+2C6F), letters whose low byte is a blank or a line break
+                   "abcdef<U+0250>", "coun<U+0265><U+0265>", "<U+010D>islo", "<U+4E0A><U+6D77>"}     \* the last one is written in double quotes
 MC_UniIdents_S == {"t<U+00E9>"}
 MC_VarcharLens == {1, 255}
 MC_BigInts  == {"2147483647", "2147483648", "3000000000", "4294967296", "9223372036854775807"}
